@@ -60,7 +60,10 @@ def run_case(c):
         router.register_client(client)
         devs = []
         for dd in c["devices"]:
-            drv, kinds_of = drvimpl.build_class(dd["defn"], log, real_router=router)
+            if dd.get("twin_of") is not None:
+                drv, kinds_of = drvimpl.build_twin(dd["defn"], devs[dd["twin_of"]][0], router), devs[dd["twin_of"]][1]
+            else:
+                drv, kinds_of = drvimpl.build_class(dd["defn"], log, real_router=router)
             devs.append((drv, kinds_of, dd))
             # the recording client wants everything, BLOB updates included
             router.process_message(EnableBLOB(device=drv.name, value="Also"), sender=client)
